@@ -4,25 +4,30 @@ from typing import Any
 from liquid import Markup
 from liquid import escape
 from liquid import soft_str
+from liquid.exceptions import LiquidValueError
 
 
 def to_liquid_string(val: Any, autoescape: bool) -> str:
     """Stringify a Python object ready for output in a Liquid template."""
-    if isinstance(val, str) or (autoescape and hasattr(val, "__html__")):
-        pass
-    elif isinstance(val, bool):
-        val = str(val).lower()
-    elif val is None:
-        val = ""
-    elif isinstance(val, list):
-        if autoescape:
-            val = Markup("").join(soft_str(itm) for itm in val)
+    try:
+        if isinstance(val, str) or (autoescape and hasattr(val, "__html__")):
+            pass
+        elif isinstance(val, bool):
+            val = str(val).lower()
+        elif val is None:
+            val = ""
+        elif isinstance(val, list):
+            if autoescape:
+                val = Markup("").join(soft_str(itm) for itm in val)
+            else:
+                val = "".join(soft_str(itm) for itm in val)
+        elif isinstance(val, range):
+            val = f"{val.start}..{val.stop - 1}"
         else:
-            val = "".join(soft_str(itm) for itm in val)
-    elif isinstance(val, range):
-        val = f"{val.start}..{val.stop - 1}"
-    else:
-        val = str(val)
+            val = str(val)
+    except ValueError as err:
+        # For example, an int with more digits than `sys.get_int_max_str_digits()`.
+        raise LiquidValueError(str(err), token=None) from err
 
     if autoescape:
         val = escape(val)
